@@ -89,6 +89,9 @@ pub trait Shape: Clone + Default + Debug + PartialEq + Send + Sync + 'static {
     fn build_tl(spec: &TlSpec) -> Self::Tl;
     /// `T::keyframe_from(&v, p)` route: a one-keyframe timeline at position p.
     fn build_from_value(v: &Self, p: f32) -> Self::Tl;
+    /// The same timeline as `build_tl`, but handed over as the *unbuilt* builder and finished by the generated
+    /// `TimelineOrBuilder` impl of the builder type (the route `StateAnimatorBuilder::on(state, builder)` takes).
+    fn build_via_builder(spec: &TlSpec) -> MergedTimeline<Self::Tl>;
 
     fn n() -> usize {
         Self::KINDS.len()
@@ -135,7 +138,17 @@ pub fn build_anim<S: Shape>(spec: &AnimSpec) -> Anim<S> {
         match st.len() {
             0 => {}
             // a single timeline goes in as the plain timeline (TimelineOrBuilder for the timeline)
-            1 if !spec.force_merged => b = b.on(STATES[i].clone(), S::build_tl(&st[0])),
+            1 if !spec.force_merged && (st[0].kfs.len() + i) % 3 == 2 => b = b.on(STATES[i].clone(), S::build_via_builder(&st[0])),
+            1 if !spec.force_merged => {
+                // `on` documents that the most recent call for a state wins: now and then an earlier registration
+                // (of another state's timeline) is overwritten
+                if (st[0].kfs.len() + i) % 5 == 0 {
+                    if let Some(other) = spec.states.iter().find(|o| !o.is_empty() && !std::ptr::eq(*o, st)) {
+                        b = b.on(STATES[i].clone(), S::build_tl(&other[0]));
+                    }
+                }
+                b = b.on(STATES[i].clone(), S::build_tl(&st[0]))
+            }
             _ => b = b.on(STATES[i].clone(), build_merged::<S>(st)),
         }
     }
@@ -262,6 +275,54 @@ macro_rules! shape_impl {
                     b = b.reverse(spec.reverse).repeat(spec.repeat.to_mina()).delay_seconds(spec.delay).duration_seconds(spec.cycle);
                 }
                 ::mina::TimelineBuilder::build(b)
+            }
+            #[allow(unused_assignments, unused_mut, unused_variables)]
+            fn build_via_builder(spec: &$crate::spec::TlSpec) -> ::mina::MergedTimeline<$tl> {
+                use ::mina::{Animate as _, KeyframeBuilder as _, TimelineConfigurationBuilder as _};
+                // The builder calls commute, so the order they are made in varies with the specification
+                // (deterministically: twins built from equal specifications are built identically): timing and
+                // default easing before or after the keyframes, a keyframe's easing before, between or after
+                // its value setters.
+                let timing_last = (spec.kfs.len() / 2) % 2 == 1;
+                let easing_last = spec.kfs.len() % 2 == 1;
+                let mut b = <$anim>::timeline();
+                if !timing_last {
+                    b = b.duration_seconds(spec.cycle).delay_seconds(spec.delay).repeat(spec.repeat.to_mina()).reverse(spec.reverse);
+                }
+                if let (false, Some(e)) = (easing_last, &spec.default_easing) {
+                    b = b.default_easing(e.make());
+                }
+                for (ki, kf) in spec.kfs.iter().enumerate() {
+                    let mut k = <$anim>::keyframe(kf.pos);
+                    let slot = ((kf.pos.to_bits() >> 3) as usize ^ ki.wrapping_mul(7)) % 3; // 0 last, 1 first, 2 after the first value
+                    let mut pending = kf.easing.as_ref();
+                    if slot == 1 {
+                        if let Some(e) = pending.take() { k = k.easing(e.make()); }
+                    }
+                    let mut idx = 0usize;
+                    let mut given = 0usize;
+                    $(
+                        if let Some(v) = kf.vals.get(idx).copied().flatten() {
+                            k = k.$af(v as $aty);
+                            given += 1;
+                            if slot == 2 && given == 1 {
+                                if let Some(e) = pending.take() { k = k.easing(e.make()); }
+                            }
+                        }
+                        idx += 1;
+                    )*
+                    if let Some(e) = pending.take() {
+                        k = k.easing(e.make());
+                    }
+                    b = b.keyframe(k);
+                }
+                if let (true, Some(e)) = (easing_last, &spec.default_easing) {
+                    b = b.default_easing(e.make());
+                }
+                if timing_last {
+                    b = b.reverse(spec.reverse).repeat(spec.repeat.to_mina()).delay_seconds(spec.delay).duration_seconds(spec.cycle);
+                }
+                ::mina::TimelineOrBuilder::build(b)
             }
             fn build_from_value(v: &Self, p: f32) -> $tl {
                 use ::mina::{Animate as _, TimelineConfigurationBuilder as _};
